@@ -60,6 +60,8 @@ var ntDeletes = []string{
 	"delete where key ^= 'k1'", "delete where key = 'k2'", "delete where key in ('k1', 'k3', 'zz') limit 1", "delete where key in ('k1', 'k3', 'zz')",
 	"delete where key > 'a' & key <= 'k3'", "delete where key ^= 'k' limit 1, 2", "delete where key = 'k1' | key = 'a'", "delete where key ^= 'k' & value != '2'",
 	"delete where key = 'k2' & key = 'k3' limit 1", "delete where key between 'a' and 'k2'", "delete where key >= 'k2' limit 2", "delete where key in ('k1', 'k2') & value != 'x'",
+	// the delete->remove shortcut must NOT be taken: the value predicate rejects some of the listed, stored keys
+	"delete where key in ('k1', 'k2', 'k3') & value != '2'", "delete where key in ('k1', 'k3', 'k4') and value = '1'", "delete where key in ('k3', 'k1') & value = '1' limit 1",
 }
 
 var ntStores = [][][2]string{
